@@ -69,6 +69,11 @@ func (c *FrameCodec) Decode(src *sonic.ByteBuffer) (Frame, error) {
 	c.decodeFrame = src.Data()[:readSoFar]
 
 	payloadLength := c.decodeFrame.PayloadLength()
+	if payloadLength < 0 {
+		// A 64-bit length with the most significant bit set does not fit in an int.
+		c.decodeFrame = nil
+		return nil, ErrPayloadOverMaxSize
+	}
 	if payloadLength > c.maxMessageSize {
 		c.decodeFrame = nil
 		return nil, ErrPayloadOverMaxSize
